@@ -185,9 +185,9 @@ func (g *GcsEmu) Handler(w http.ResponseWriter, r *http.Request) {
 			g.handleGcsNewBucket(ctx, w, r, conds)
 		} else if object == "" {
 			g.handleGcsNewObject(ctx, baseUrl, w, r, bucket, conds)
-		} else if strings.Contains(object, "/compose") {
+		} else if strings.HasSuffix(object, "/compose") {
 			// TODO: enforce other conditions outside of generation
-			g.handleGcsCompose(ctx, baseUrl, w, r, bucket, object, conds)
+			g.handleGcsCompose(ctx, baseUrl, w, r, bucket, strings.TrimSuffix(object, "/compose"), conds)
 		} else if strings.Contains(object, "/rewriteTo/") {
 			g.handleGcsCopy(ctx, baseUrl, w, bucket, object)
 		} else if r.Form.Get("upload_id") != "" {
@@ -214,14 +214,8 @@ func (g *GcsEmu) handleGcsCompose(ctx context.Context, baseUrl HttpBaseUrl, w ht
 		g.gapiError(w, http.StatusBadRequest, "bad compose request")
 		return
 	}
-	// Get the composed object name from the path
-	parts := strings.Split(object, "/compose")
-	if len(parts) != 2 {
-		g.gapiError(w, http.StatusBadRequest, "bad compose request")
-		return
-	}
 	dst := composeObj{
-		filename: parts[0],
+		filename: object,
 		conds:    conds,
 	}
 
